@@ -342,6 +342,17 @@ def conventional(rng, name, feat=None):
         s.rpc(f"Delete{R}", P + f".Delete{R}Request", ".google.protobuf.Empty",
               http={"delete": f"/{uver}/{{name={name_glob}}}"}, sigs=["name"])
         tags.add("void")
+        if rng.random() < 0.5:
+            # a singleton sub-resource (AIP-156): the pattern ends in literal text after the last variable
+            sc = tf.message(f"{R}Config")
+            sc.resource(f"{name}.googleapis.com/{R}Config", pat + "/config")
+            sc.field("name", "string")
+            sc.field("enabled", "bool")
+            q = f.message(f"Get{R}ConfigRequest")
+            q.field("name", "string", required=True, ref=f"{name}.googleapis.com/{R}Config")
+            s.rpc(f"Get{R}Config", P + f".Get{R}ConfigRequest", P + f".{R}Config",
+                  http={"get": f"/{uver}/{{name={name_glob}/config}}"}, sigs=["name"])
+            tags.add("singleton-resource")
         if rng.random() < 0.7:
             verb = rng.choice(["Activate", "Export", "Import", "Rotate", "Class"])
             q = f.message(f"{verb}{R}Request")
@@ -1634,6 +1645,15 @@ def respath_api(rng, name, npat=36):
         prev.field(f"level{d}", P + f".ReplyLevel{d}", repeated=d == 2)
         holders.append(h)
         prev = h
+    # ... or only from the response type named in the operation_info of a long-running method
+    lr = f.message("LroResult")
+    lr.field("summary", "string")
+    lr_inner = f.message("LroResultPart")
+    lr_inner.field("label", "string")
+    lr.field("part", P + ".LroResultPart")
+    lm = f.message("LroMeta")
+    lm.field("percent", "int32")
+    holders += [lr, lr, lr_inner]
     top = q
     res = []
     for i in range(npat):
@@ -1668,6 +1688,7 @@ def respath_api(rng, name, npat=36):
     res.append({"type": f"{name}.googleapis.com/WildThing", "short": "WildThing", "pattern": "*", "vars": [], "form": "wildcard", "how": "message"})
     s = f.service("Paths", host=f"{name}.googleapis.com")
     s.rpc("Do", P + ".Req", P + ".Reply")
+    s.rpc("Run", P + ".Req", ".google.longrunning.Operation", lro=("LroResult", "LroMeta"))
     api.info["resources"] = res
     api.options = ["transport=grpc", "autogen-snippets=false"]
     api.info.update(pkg=pkg, version=ver, ns=["vp"], name=name, host=f"{name}.googleapis.com")
@@ -1676,7 +1697,8 @@ def respath_api(rng, name, npat=36):
 
 AUTOPOP_VIOLATIONS = ["unknown_method", "server_streaming", "client_streaming", "nested_field", "required_field", "int_field",
                       "bytes_field", "unannotated", "other_format", "duplicate_selector", "unknown_field", "message_field",
-                      "duplicate_selector_long_running_only", "duplicate_selector_empty_fields", "duplicate_of_unpopulated"]
+                      "duplicate_selector_long_running_only", "duplicate_selector_empty_fields", "duplicate_of_unpopulated",
+                      "required_after_other_behavior", "required_before_other_behavior"]
 
 
 def autopop_api(rng, name, violation=None):
@@ -1705,6 +1727,11 @@ def autopop_api(rng, name, violation=None):
     fo.options.Extensions[field_info_pb2.field_info].format = field_info_pb2.FieldInfo.IPV4
     q.field("sub_id", P + ".Sub", uuid4=True)
     q.field("third_id", "string", uuid4=True)
+    from google.api import field_behavior_pb2 as fb
+    # REQUIRED next to other behaviors (the option is a list), and other behaviors alone
+    q.field("immutable_required_id", "string", uuid4=True, behaviors=[fb.IMMUTABLE, fb.REQUIRED])
+    q.field("required_input_only_id", "string", uuid4=True, behaviors=[fb.REQUIRED, fb.INPUT_ONLY])
+    q.field("immutable_id", "string", uuid4=True, behaviors=[fb.IMMUTABLE, fb.INPUT_ONLY])
     r = f.message("Reply")
     r.field("ok", "bool")
     s = f.service("Ids", host=f"{name}.googleapis.com")
@@ -1734,6 +1761,8 @@ def autopop_api(rng, name, violation=None):
         "duplicate_selector_long_running_only": {"selector": f"{S}.Create", "long_running": {"initial_poll_delay": "5s"}},
         "duplicate_selector_empty_fields": {"selector": f"{S}.Fetch", "auto_populated_fields": []},
         "duplicate_of_unpopulated": {"selector": f"{S}.Untouched", "auto_populated_fields": ["request_id"]},
+        "required_after_other_behavior": {"selector": f"{S}.Untouched", "auto_populated_fields": ["immutable_required_id"]},
+        "required_before_other_behavior": {"selector": f"{S}.Untouched", "auto_populated_fields": ["required_input_only_id"]},
         "unknown_field": {"selector": f"{S}.Untouched", "auto_populated_fields": ["no_such_field"]},
         "message_field": {"selector": f"{S}.Untouched", "auto_populated_fields": ["sub_id"]},
     }
@@ -1779,6 +1808,11 @@ def mixin_api(rng, name, mixins, rules_mode, own_iam=None, add_iam=False, transp
     q.field("name", "string")
     r = f.message("Reply")
     r.field("ok", "bool")
+    if rng.random() < 0.5:
+        # another service declared first: whatever the API overrides is then not in the first service
+        s0 = f.service("Annex", host=f"{name}.googleapis.com")
+        s0.rpc("Peek", P + ".Req", P + ".Reply", http={"get": "/v1/{name=annexes/*}"})
+        api.tags.add("overriding-service-not-first")
     s = f.service("Vault", host=f"{name}.googleapis.com")
     s.rpc("GetThing", P + ".Req", P + ".Reply", http={"get": "/v1/{name=things/*}"})
     s.rpc("StartJob", P + ".Req", ".google.longrunning.Operation", http={"post": "/v1/{name=things/*}:start"}, body="*", lro=("Reply", "Req"))
@@ -1921,6 +1955,21 @@ def selective_api(rng, name):
     q.field("tree", P + ".Tree")
     q.field("kind", "enum:" + P + ".Outer.Kind")
     s2.rpc("Grow", P + ".GrowRequest", P + ".Tree", http={"post": "/v1/grow"}, body="*")
+    # a resource message declared in a target file that comes after the service file in the request and is not imported by it
+    # (references are strings): reached only through the resource_reference of a void RPC's request
+    fl = File(f"{dirp}/zz_vaults.proto", pkg, deps=[x for x in STD_DEPS if "resource" in x or "field_behavior" in x] + [fe.pb.name])
+    api.add(fl)
+    vd = fl.message("VaultDetail")
+    vd.field("capacity", "int32")
+    vd.field("state", st)
+    vault = fl.message("Vault")
+    vault.resource(f"{name}.googleapis.com/Vault", "vaults/{vault}")
+    vault.field("name", "string")
+    vault.field("detail", P + ".VaultDetail")
+    fl.message("UnusedLate").field("x", "string")
+    q = f.message("DeleteVaultRequest")
+    q.field("name", "string", ref=f"{name}.googleapis.com/Vault")
+    s1.rpc("DeleteVault", P + ".DeleteVaultRequest", ".google.protobuf.Empty", http={"delete": "/v1/{name=vaults/*}"}, sigs=["name"])
     # a service whose name starts with another service's name, sharing an RPC name with it
     s3 = f.service("LibraryAdmin", host=f"{name}.googleapis.com")
     s3.rpc("GetShelf", P + ".GetShelfRequest", P + ".Shelf", http={"get": "/v1/admin/{name=shelves/*}"}, sigs=["name"])
